@@ -49,7 +49,7 @@ const GROUPS: [(&str, &str, &str); 6] = [
     ("loc", "loc_case", "check_loc"),
 ];
 /// groups (in the order above) whose model exists
-pub const ACTIVE_GROUPS: usize = 2;
+pub const ACTIVE_GROUPS: usize = 5;
 const HEADERS: [&str; 6] = [
     "From CKB Require Import Structs.AList Structs.Orphan.",
     "From CKB Require Import Structs.AList Structs.Orphan Structs.Skip.",
